@@ -5,7 +5,7 @@ pid, wt = sys.argv[1], sys.argv[2]
 hint = sys.argv[3] if len(sys.argv) > 3 else ""
 props = {json.loads(l)["id"]: json.loads(l) for l in open("/verif/properties.jsonl") if l.strip()}
 p = props[pid]
-print(f"""You are helping to evaluate a test suite. Work ONLY inside the git worktree `{wt}` (a checkout of the Python library MiniSean/QCoCircuits, package `qce_circuit` under `{wt}/src`). Do not read or write anything under /verif or /repo, and do not use git commands other than `git -C {wt} diff` / `git -C {wt} status` / `git -C {wt} stash` (never commit).
+print(f"""You are helping to evaluate a test suite. Work ONLY inside the git worktree `{wt}` (a checkout of the Python library MiniSean/QCoCircuits, package `qce_circuit` under `{wt}/src`). Do not read or write anything under /verif or /repo, and do not use git commands other than `git -C {wt} diff` / `git -C {wt} status` / `git -C {wt} apply` (never commit, never `git stash`: the stash is shared between sibling worktrees other people are using).
 
 IMPORTANT environment trap: the interpreter /venv/bin/python has an editable install pointing at ANOTHER checkout, so you must always put this worktree first on the path:
   run the existing tests:  cd {wt} && PYTHONPATH={wt}/src /venv/bin/python -m pytest -q -p no:cacheprovider tests      (61 tests, ~7 s, must all pass)
@@ -26,6 +26,6 @@ Your task: make ONE realistic change to the library source (a plausible bug a de
 
 Deliver, inside `{wt}`:
   1. the change itself, left as uncommitted modifications of the working tree, and `git -C {wt} diff > {wt}/seed_{pid}.patch`;
-  2. `{wt}/demo_{pid}.py`: a small self-contained program using only the library's public API that exits 0 (prints PASS) on the ORIGINAL code and exits 1 (prints FAIL with an explanation) with your change applied - verify both by running it with and without the change (`git -C {wt} stash` / `git -C {wt} stash pop`), with the PYTHONPATH shown above;
+  2. `{wt}/demo_{pid}.py`: a small self-contained program using only the library's public API that exits 0 (prints PASS) on the ORIGINAL code and exits 1 (prints FAIL with an explanation) with your change applied - verify both by running it with and without the change (save `git -C {wt} diff -- src > /tmp/{pid}-seed.patch`, reverse it with `git -C {wt} apply -R /tmp/{pid}-seed.patch`, run, re-apply with `git -C {wt} apply /tmp/{pid}-seed.patch`), with the PYTHONPATH shown above;
   3. `{wt}/SEED_REPORT.md`: which file/lines you changed and why it is plausible, exactly what is needed for the breakage to manifest, the commands you ran and their outcomes (tests: 61 passed with the change; demo: PASS without, FAIL with).
 Finish with a short summary of the same in your final message. Keep the change small (a few lines).""")
